@@ -266,6 +266,33 @@ def _branches(fn: ast.FunctionDef, token: str):
     return out
 
 
+def canon_importer(fi):
+    """Role names for the locals the importer rules mention: the dictionary
+    built from {atom.GetIdx(): ...} over rdmol.GetAtoms() is `id_atom_map`
+    whatever the source calls it."""
+    from .iso import rename_locals
+    names = set()
+    for n in ast.walk(fi.node):
+        tgt = value = None
+        if isinstance(n, ast.Assign) and len(n.targets) == 1:
+            tgt, value = n.targets[0], n.value
+        elif isinstance(n, ast.AnnAssign) and n.value is not None:
+            tgt, value = n.target, n.value
+        if not isinstance(tgt, ast.Name):
+            continue
+        alts = [value]
+        while any(isinstance(v, ast.IfExp) for v in alts):
+            alts = [x for v in alts for x in (
+                (v.body, v.orelse) if isinstance(v, ast.IfExp) else (v,))]
+        if any(isinstance(v, ast.DictComp) and "GetIdx()" in norm(v.key)
+               and "GetAtoms()" in norm(v.generators[0].iter) for v in alts):
+            names.add(tgt.id)
+    if len(names) == 1 and "id_atom_map" not in names:
+        # annotation-only declarations of the same local follow the rename
+        return rename_locals(fi, {names.pop(): "id_atom_map"})
+    return fi
+
+
 def importer_tables(prog: Program) -> dict:
     """class -> {label: (atoms as symbols, parity)} as the importer builds
     them.  Symbols: 'c' centre, 'n0'.. RDKit's neighbours in its order."""
@@ -273,6 +300,7 @@ def importer_tables(prog: Program) -> dict:
     fi = ci.methods.get("smg_from_rdmol")
     if fi is None:
         raise AnalysisError("RDMol2StereoMolGraph.smg_from_rdmol vanished")
+    fi = canon_importer(fi)
     tables = {}
     base_env = {}
     for name, node in ci.assigns.items():
@@ -460,6 +488,82 @@ def canon_exporter(prog: Program):
                 table.setdefault(n.func.value.id, "rd_atom")
             elif n.func.attr in ("SetStereo", "SetStereoAtoms"):
                 table.setdefault(n.func.value.id, "rd_bond")
+    # the E/Z section: the RDKit bond between the two bond atoms, the bond
+    # atoms as the graph names them and as RDKit orders them
+    rdb = {k for k, v in table.items() if v == "rd_bond"} | {"rd_bond"}
+    simple = {}
+    for n in ast.walk(fi.node):
+        if isinstance(n, ast.Assign) and len(n.targets) == 1 and isinstance(
+                n.targets[0], ast.Name):
+            simple.setdefault(n.targets[0].id, []).append(n.value)
+    for name, vals in simple.items():
+        if len(vals) != 1:
+            continue
+        v = vals[0]
+        if name in rdb and isinstance(v, ast.Call) and isinstance(
+                v.func, ast.Attribute) and \
+                v.func.attr == "GetBondBetweenAtoms" and len(v.args) == 2 \
+                and all(isinstance(a, ast.Name) for a in v.args):
+            for a, role, arole in zip(v.args, ("rd_a1", "rd_a2"),
+                                      ("a1", "a2")):
+                table.setdefault(a.id, role)
+                d = simple.get(a.id, [])
+                if len(d) == 1 and isinstance(d[0], ast.Subscript) and \
+                        isinstance(d[0].value, ast.Name) and isinstance(
+                        d[0].slice, ast.Name):
+                    table.setdefault(d[0].slice.id, arole)
+                    table.setdefault(d[0].value.id, "map_num_idx_dict")
+        if isinstance(v, ast.Subscript) and isinstance(v.value, ast.Name) \
+                and isinstance(v.slice, ast.Call) and isinstance(
+                v.slice.func, ast.Attribute) and isinstance(
+                v.slice.func.value, ast.Name) and \
+                v.slice.func.value.id in rdb:
+            if v.slice.func.attr == "GetBeginAtomIdx":
+                table.setdefault(name, "new_a1")
+                table.setdefault(v.value.id, "idx_map_num_dict")
+            elif v.slice.func.attr == "GetEndAtomIdx":
+                table.setdefault(name, "new_a2")
+                table.setdefault(v.value.id, "idx_map_num_dict")
+    # the atom loop: centre and the neighbour order RDKit reports
+    a_names = {k for k, v in table.items() if v == "a_stereo"} | {"a_stereo"}
+    rda = {k for k, v in table.items() if v == "rd_atom"} | {"rd_atom"}
+    for n in ast.walk(fi.node):
+        if isinstance(n, ast.For) and isinstance(n.target, ast.Tuple) and \
+                len(n.target.elts) == 2 and all(
+                isinstance(x, ast.Name) for x in n.target.elts) and \
+                n.target.elts[1].id in a_names:
+            table.setdefault(n.target.elts[0].id, "atom")
+    nbr_names: list[str] = []
+    for name, vals in simple.items():
+        if vals and all(isinstance(v, ast.AST) for v in vals):
+          for v_ in vals[:1] if len({norm(v) for v in vals}) == 1 else []:
+            comps = [c for c in ast.walk(v_) if isinstance(
+                c, (ast.ListComp, ast.GeneratorExp))]
+            if any(isinstance(c.generators[0].iter, ast.Call) and isinstance(
+                    c.generators[0].iter.func, ast.Attribute)
+                    and c.generators[0].iter.func.attr == "GetNeighbors"
+                    for c in comps):
+                nbr_names.append(name)
+    for n in ast.walk(fi.node):
+        if isinstance(n, ast.Assign) and len(n.targets) == 1 and isinstance(
+                n.targets[0], ast.Name) and n.targets[0].id in a_names and \
+                isinstance(n.value, ast.Call) and isinstance(
+                n.value.func, ast.Attribute) and \
+                n.value.func.attr == "get_atom_stereo" and \
+                len(n.value.args) == 1 and isinstance(
+                n.value.args[0], ast.Name):
+            table.setdefault(n.value.args[0].id, "atom")
+    for name, vals in simple.items():
+        if len(vals) == 1 and isinstance(vals[0], ast.Dict) and \
+                vals[0].values and all("CHI_TETRAHEDRAL" in norm(v)
+                                       for v in vals[0].values):
+            table.setdefault(name, "rd_tetrahedral")
+    all_names = {x.id for x in ast.walk(fi.node) if isinstance(x, ast.Name)}
+    free = [r for r in ("rd_nbr_order", "neighbors", "rd_nbrs")
+            if r not in all_names]
+    for name in nbr_names:
+        if name not in ("rd_nbr_order", "neighbors", "rd_nbrs") and free:
+            table.setdefault(name, free.pop(0))
     used = {x.id for x in ast.walk(fi.node) if isinstance(x, ast.Name)}
     table = {k: v for k, v in table.items() if k != v and v not in used}
     if not table:
@@ -478,13 +582,17 @@ def exporter_model(prog: Program) -> dict:
     # tetrahedral tag table
     tags = {}
     for node in ast.walk(fi.node):
-        if isinstance(node, ast.Assign) and norm(node.targets[0]) == \
-                "rd_tetrahedral" and isinstance(node.value, ast.Dict):
+        if isinstance(node, ast.Assign) and isinstance(
+                node.value, ast.Dict) and node.value.values and all(
+                "CHI_TETRAHEDRAL" in norm(v) for v in node.value.values):
             for k, v in zip(node.value.keys, node.value.values):
                 try:
                     tags[ast.literal_eval(k)] = norm(v).split(".")[-1]
                 except Exception:
                     pass
+    if not tags:
+        raise AnalysisError("exporter: the table {parity: CHI_TETRAHEDRAL_*} "
+                            "was not found as a dictionary literal")
     out["tetrahedral_tags"] = tags
 
     def branch(cls):
